@@ -204,6 +204,7 @@ Tick == /\ pc = Idle /\ phase = "run" /\ ticks < MaxTicks
         /\ hist' = H([a |-> "Tick"])
         /\ UNCHANGED <<rows, log, pub, pc, nops, faults, sweeps, swept, pubtx, abandoned, pubkeys, retryOp, phase, todo>>
 
+TxOf(s) == {v.tx : v \in UNION {vers[s][m] : m \in Methods}}
 Old(l) == ~MyVersion(l.s, l.m, l.tx).fresh
 \* didnuts.Manager.IsCommitted: hash of the latest didstore document = hash of the version; error when there is none
 NutsErr(l) == pub[l.s] = <<>>
@@ -214,23 +215,27 @@ SweepEffect ==
         txs == {l.tx : l \in aged}
         abort == SweepAbortsOnUnpublishedCreate /\ \E l \in aged : l.m = "nuts" /\ NutsErr(l)
         \* a transaction is rolled back iff one of its aged rows is not committed (did:web always is)
-        bad == {t \in txs : \E l \in aged : l.tx = t /\ l.m = "nuts" /\ ~NutsCommitted(l)} IN
+        bad == {t \in txs : \E l \in aged : l.tx = t /\ l.m = "nuts" /\ ~NutsCommitted(l)}
+        \* prescriptive: rolling back a create also removes the rows of table did (ON DELETE CASCADE: every version and log row)
+        gone == IF AbandonKeepsDidRows THEN {}
+                ELSE {s \in Subjects : \E l \in aged : l.tx \in bad /\ l.s = s /\ l.typ = "created"} IN
     /\ swept' = (aged = log)
     /\ IF abort
-       THEN /\ UNCHANGED <<vers, log, abandoned, rows>>
+       THEN /\ UNCHANGED <<vers, log, abandoned, rows, pub>>
             /\ hist' = H([a |-> "Sweep", aborted |-> TRUE])
        ELSE \* only the versions named by the aged rows are deleted (rows of the same transaction are inserted together)
             /\ vers' = [s \in Subjects |-> [m \in Methods |->
-                          {v \in vers[s][m] : ~\E l \in aged : l.tx \in bad /\ l.s = s /\ l.m = m /\ l.tx = v.tx}]]
-            /\ log' = {l \in log : l.tx \notin txs}
-            /\ abandoned' = abandoned \cup bad
-            /\ rows' = IF AbandonKeepsDidRows THEN rows
-                       ELSE [s \in Subjects |-> IF \E l \in aged : l.tx \in bad /\ l.s = s /\ l.typ = "created" THEN {} ELSE rows[s]]
+                          IF s \in gone THEN {}
+                          ELSE {v \in vers[s][m] : ~\E l \in aged : l.tx \in bad /\ l.s = s /\ l.m = m /\ l.tx = v.tx}]]
+            /\ log' = {l \in log : l.tx \notin txs /\ l.s \notin gone}
+            /\ abandoned' = abandoned \cup bad \cup UNION {TxOf(s) : s \in gone}
+            /\ rows' = [s \in Subjects |-> IF s \in gone THEN {} ELSE rows[s]]
+            /\ pub' = [s \in Subjects |-> IF s \in gone THEN <<>> ELSE pub[s]]   \* a new create starts a new DID
             /\ hist' = H([a |-> "Sweep", aborted |-> FALSE])
 
 Sweep == /\ pc = Idle /\ phase = "run" /\ sweeps < MaxSweeps
          /\ SweepEffect /\ sweeps' = sweeps + 1
-         /\ UNCHANGED <<pub, pc, nops, faults, ticks, pubtx, pubkeys, retryOp, phase, todo>>
+         /\ UNCHANGED <<pc, nops, faults, ticks, pubtx, pubkeys, retryOp, phase, todo>>
 
 (* --------------------------------------------------------------- tail *)
 \* every behaviour ends with: a minute passes, the sweep runs, the operations hit by a fault are repeated without faults
@@ -241,7 +246,7 @@ TailTick == /\ WithTail /\ pc = Idle /\ phase = "run" /\ nops >= 1
 TailSweep == /\ phase = "ticked"
              /\ SweepEffect /\ phase' = "swept"
              /\ todo' = {s \in Subjects : retryOp[s] # "none"}
-             /\ UNCHANGED <<pub, pc, nops, faults, ticks, sweeps, pubtx, pubkeys, retryOp>>
+             /\ UNCHANGED <<pc, nops, faults, ticks, sweeps, pubtx, pubkeys, retryOp>>
 TailSkip(s) == /\ phase = "swept" /\ pc = Idle /\ s \in todo /\ ~EnvOK(retryOp[s], s)
                /\ todo' = todo \ {s}
                /\ UNCHANGED <<rows, vers, log, pub, pc, nops, faults, ticks, sweeps, swept, pubtx, abandoned, pubkeys, retryOp, phase, hist>>
@@ -261,7 +266,6 @@ Quiescent == pc = Idle /\ swept
 NoLogLeft == Quiescent => log = {}
 
 \* every finished transaction: all its versions are there and the did:nuts one is on the network, or none is and nothing went out
-TxOf(s) == {v.tx : v \in UNION {vers[s][m] : m \in Methods}}
 AllOrNothingAfterSweep ==
     Quiescent => \A s \in Subjects :
         /\ \A t \in TxOf(s) : /\ \A m \in Methods : \E v \in vers[s][m] : v.tx = t   \* addSvc "same" never splits methods here
